@@ -557,7 +557,9 @@ class Frame:
                 if b == 0:
                     raise B09Error(45, "division by zero")
                 if both_int:
-                    if a % b != 0:
+                    # INTEGER / INTEGER is BASIC09's integer division; the quotient of non-negative operands is unambiguous,
+                    # the rounding direction for negative operands is not modelled
+                    if a % b != 0 and (a < 0 or b < 0):
                         return UNSPEC
                     r = a // b
                 else:
